@@ -46,6 +46,11 @@ MAX_POINTS = 64                                      # per expression (<= 3 vari
 SETTINGS = ("none", "continuous", "discontinuous")
 LEVEL = {"none": 0, "continuous": 1, "discontinuous": 2}
 HISTORY_LEN = {"quick": 2, "thorough": 3}
+# constants whose CPython hashes collide (hash(-1) == hash(-2), hash(0) == hash(2**61-1)): two
+# sibling nodes differing only in such a pair have equal hashes without being equal; and constants
+# that are == with equal hashes but different types (legitimately shared memo entries)
+HASH_TWINS = ((-1, -2), (0, 2 ** 61 - 1), (-1, -1 - (2 ** 61 - 1)))
+TYPED_TWINS = ((1, 1.0), (1, True), (2, 2.0), (0, False))
 # The general power rule of the implementation spells the natural logarithm as the bare name
 # ``log`` (not ``math.log``).  The statement does not fix the evaluation environment, so the
 # reference environment binds both; set to False to see every such result reported.
@@ -102,7 +107,7 @@ def pool(leaves, shp):
 
 def in_fragment(s) -> bool:
     t = s[0]
-    if t == "int":
+    if t in ("int", "float", "bool"):
         return True
     if t == "Variable":
         return s[1][0] == "str" and s[1][1] not in ("math", "log")
@@ -486,7 +491,10 @@ class C10(Check):
             "from a sibling set (quick: children over x, y, 2, -1; thorough: over all six leaves); "
             "(pairs3, thorough) binary parents with both children composite; dedicated families "
             "for variable exponents on an integer grid, refusal (arity variants, unknown names, "
-            "non-smooth functions below every parent position), shared CSEs, and all call "
+            "non-smooth functions below every parent position), shared CSEs, pairs of sibling "
+            "CSEs whose children differ only in hash-colliding constants (-1/-2, 0/2**61-1, "
+            "-1/-2**61) or in ==-but-differently-typed constants (1/1.0/True, ...) in 7 contexts "
+            "and both orders, and all call "
             "histories up to length 2/3 over {differentiate(), one re-used mapper instance per "
             "variable} x {x, y} x 5 CSE expressions. Each expression x every value leaf, an "
             "absent name and an absent subscript as differentiation variable (object / name / "
@@ -524,6 +532,7 @@ class C10(Check):
             ("varexp", self.gen_varexp),
             ("refusal", self.gen_refusal),
             ("cse-shared", self.gen_cse_shared),
+            ("cse-twins", self.gen_cse_twins),
             ("cse-histories", lambda: self.gen_histories(tier)),
         ]
         if tier == "thorough":
@@ -618,6 +627,38 @@ class C10(Check):
                 yield ("e", CSE(Sum(w, Y)))                 # nested wrappers
                 yield ("e", CSE(Prod(w, CSE(Sum(w, X)))))
                 yield ("e", If(Cmp(X, "<", Y), w, Prod(w, w)))
+
+    def gen_cse_twins(self):
+        """Two different wrappers in ONE expression whose children differ only in a constant of a
+        hash-colliding pair (or an == pair of different types): every memo keyed on a hash instead
+        of on the node confuses them."""
+        templates = (
+            lambda c: Pow(X, c), lambda c: Pow(Sum(X, C(1)), c), lambda c: Prod(c, X),
+            lambda c: Prod(X, Y, c), lambda c: Sum(Prod(X, Y), c), lambda c: Quot(c, X),
+            lambda c: Quot(X, Sum(Y, c)), lambda c: mcall("sin", Prod(c, X)),
+            lambda c: Prod(c, mcall("exp", X)), lambda c: Pow(Prod(X, Y), c),
+        )
+        contexts = (
+            lambda a, b: Sum(a, b), lambda a, b: Prod(a, b), lambda a, b: Quot(a, Sum(b, C(4))),
+            lambda a, b: Sum(Prod(a, Y), mcall("sin", b)),
+            lambda a, b: Quot(Sum(Prod(a, Y), X), Sum(b, C(4))),
+            lambda a, b: CSE(Sum(a, Prod(b, X))),
+            lambda a, b: If(Cmp(X, "<", Y), Prod(a, b), Sum(a, b)),
+        )
+        for pairs, typed in ((HASH_TWINS, False), (TYPED_TWINS, True)):
+            for c1, c2 in pairs:
+                for tm in templates:
+                    try:
+                        t1, t2 = tm(C(c1)), tm(C(c2))
+                    except TypeError:
+                        continue
+                    for wrap in (lambda u: CSE(u), lambda u: CSE(u, "p")):
+                        a, b = wrap(t1), wrap(t2)
+                        for ctx in contexts:
+                            yield ("e", ctx(a, b))
+                            yield ("e", ctx(b, a))
+                    if not typed:
+                        yield ("e", Sum(CSE(t1), CSE(t2, "p"), CSE(t1, "p"), CSE(t2)))
 
     def gen_histories(self, tier):
         ops = history_ops()
